@@ -51,7 +51,7 @@ type Data struct {
 	C *Ctl
 }
 
-func (f *Data) Open() error          { return f.W.Open() }
+func (f *Data) Open() error { return f.W.Open() }
 func (f *Data) Close() error {
 	if f.C.FailClose {
 		f.C.fire()
@@ -59,8 +59,8 @@ func (f *Data) Close() error {
 	}
 	return f.W.Close()
 }
-func (f *Data) Size() uint64         { return f.W.Size() }
-func (f *Data) Seek(o uint64) error  { return f.W.Seek(o) }
+func (f *Data) Size() uint64        { return f.W.Size() }
+func (f *Data) Seek(o uint64) error { return f.W.Seek(o) }
 func (f *Data) Write(r []byte) (uint64, error) {
 	if f.C.shouldFail() {
 		return 0, ErrInjected
@@ -79,7 +79,7 @@ type Index struct {
 	C *Ctl
 }
 
-func (f *Index) Open() error  { return f.W.Open() }
+func (f *Index) Open() error { return f.W.Open() }
 func (f *Index) Close() error {
 	if f.C.FailClose {
 		f.C.fire()
